@@ -68,7 +68,23 @@ type S struct {
 }
 
 func New() *S {
-	return &S{Markers: []string{"github.com/pinealctx/neptune/", "nvharness/"}, Timeout: 10 * time.Second}
+	// "/go/cmd/c" matches the file paths of a harness command's own `main` package (its frames print as `main.f`)
+	return &S{Markers: []string{"github.com/pinealctx/neptune/", "nvharness/", "/go/cmd/c"}, Timeout: 10 * time.Second}
+}
+
+// isParked: the goroutine cannot make progress by itself. `semacquire` counts only when the goroutine sits in
+// package sync (WaitGroup.Wait, …): a goroutine that allocates while the snapshot's own stop-the-world holds
+// runtime.worldsema (mallocgc → gcStart → semacquire) also shows as [semacquire], with a user frame on top
+// (runtime frames are hidden) — it resumes as soon as the snapshot ends, so it is active.
+func isParked(g G) bool {
+	if !parked[g.State] {
+		return false
+	}
+	if g.State == "semacquire" {
+		lines := strings.SplitN(g.Text, "\n", 3)
+		return len(lines) >= 2 && strings.HasPrefix(lines[1], "sync.")
+	}
+	return true
 }
 
 var goidRe = regexp.MustCompile(`^goroutine (\d+) \[`)
@@ -173,10 +189,10 @@ func (s *S) Settle() error {
 			if !s.relevant(g, self) {
 				continue
 			}
-			if parked[g.State] {
+			if isParked(g) {
 				continue
 			}
-			if !active[g.State] {
+			if !active[g.State] && !parked[g.State] {
 				return fmt.Errorf("sched: unknown goroutine state %q:\n%s", g.State, g.Text)
 			}
 			quiet = false
@@ -202,7 +218,7 @@ func (s *S) Parked() []G {
 	self := goid()
 	var out []G
 	for _, g := range Snapshot() {
-		if s.relevant(g, self) && parked[g.State] {
+		if s.relevant(g, self) && isParked(g) {
 			out = append(out, g)
 		}
 	}
